@@ -33,6 +33,9 @@ CHECKS = {
  "C15": dict(cat="model_checking", ref="§3 C15",
    text="Receiver in each state of an honest v3 exchange (fresh, after every handshake step in both roles, encrypted, after traffic, finished) × every sequence of ≤ 2 messages from {DH-Commit, DH-Key, Reveal-Sig, Sig, data, fragment} × 6 sender tags × 4 receiver tags, built from genuine traffic with rewritten tags; a lock-step reference model of the tag binding classifies each message (ours / foreign / malformed) and the implementation must give no plaintext, no reply (an OTR error only for malformed ones), an unchanged state hash and an unchanged binding; single hostile messages are also followed by the genuine continuation and compared differentially with the run without them. Own-tag generation under every scripted answer sequence ≤ 3 of the randomness source, and ExtractInstanceTags on every message and fragment built.",
    tech="exhaustive enumeration of message sequences executed on the implementation in lock-step with a reference binding model (state-hash and differential-continuation oracles)"),
+ "C06": dict(cat="model_checking", ref="§3 C06",
+   text="80 conversation states generated from honest runs (every handshake step in both roles, rotations, data in flight, every SMP step, every step of a refresh while encrypted, finished; v2 and v3) × rejected inputs derived from genuine traffic (byte flips, truncations, extension, version/tag changes, counter/key-id/flag/next-DH substitutions with the MAC left alone, replays of the whole history, messages of the previous session, reflected messages, garbage). Differential oracle without hand-written expectations: the exact state hash is unchanged, or else seven genuine continuations (pending traffic, text both ways, SMP both ways, peer query now / after the ignore window / before pending traffic, End) produce identical observable transcripts on clones with and without the rejected input.",
+   tech="exhaustive enumeration of (state, rejected input) pairs on the implementation with an exact-state / differential-continuation oracle"),
 }
 NA_REASON = "check not built yet (work in progress; see DESIGN.md §3 for the planned bounded exploration)"
 def main():
